@@ -230,6 +230,23 @@ fn main() {
                         got.dedup();
                         let mut exp: Vec<String> = t.vis.clone();
                         exp.sort();
+                        // the item offered for a local describes the binding the name denotes HERE (the innermost one): its
+                        // signature is the type shown on that binder
+                        if t.tg > 0 && t.tg < 1000 {
+                            if let (Some(item), Some(binder)) = (items.iter().find(|i| i.label == t.t && matches!(i.kind, ide::CompletionItemKind::Param)),
+                                                                 prog.toks.iter().find(|b| b.idx as u64 == t.tg)) {
+                                let hv = a.hover(FilePos::new(M1, (binder.start as u32).into())).unwrap();
+                                let binder_ty = hv.map(|h| { let mut it = h.markup.split("```"); it.next(); let b = it.next().unwrap_or(""); b.strip_prefix("gleam").unwrap_or(b).split_whitespace().collect::<Vec<_>>().join(" ") });
+                                let sig = item.signature.clone().map(|s| s.split_whitespace().collect::<Vec<_>>().join(" "));
+                                if let (Some(bt), Some(sg)) = (binder_ty, sig) {
+                                    if bt != sg {
+                                        local.push(json!({"kind": "mismatch", "prop": "C18",
+                                            "features": {"what": "item of a local does not describe the binding in scope", "ctx": t.ctx.join("/")},
+                                            "detail": {"case": case, "text": prog.text, "token": {"idx": t.idx, "text": t.t, "offset": t.end}, "binder": binder.idx, "binder_type": bt, "item_signature": sg}}));
+                                    }
+                                }
+                            }
+                        }
                         // module accessors in scope: the imported module under its own name, or under its alias only
                         let mut got_mods: Vec<String> = items.iter().filter(|i| matches!(i.kind, ide::CompletionItemKind::Module)).map(|i| i.label.to_string()).collect();
                         got_mods.sort();
